@@ -46,7 +46,7 @@ TARGETS = {
             "family_step", "family_history_undo", "family_history_undo_run", "opHistory_undo", "structHistory_undo_bmp",
             "structHistory_undo_bmp'", "mixedHistory_undo_bmp",
             "delete_residual", "delete_residual_around", "insertInline_residual", "insertInline_residual_around",
-            "replace_residual_of_inv"],
+            "replace_residual_of_inv", "replace_residual", "replace_residual_cut"],
     "C11": ["fitStep_decreases", "fitLoop_outOfFuel_exact", "fitLoop_terminates", "replaceStep_outOfFuel_cycle",
             "replaceStep_not_outOfFuel", "fit_no_internal_partial", "replaceStep_total_partial", "delete_total",
             "delete_total_respects", "deleteRange_total", "insertInline_total", "fit_emits_wf", "coherent_invariant",
@@ -59,7 +59,9 @@ TARGETS = {
             "fit_emitOK_of_inv_partial", "insertInline_valid_partial", "insertInline_total_valid_partial",
             "replace_valid_of_inv_partial", "replaceRange_valid_inline_partial", "replaceRange_valid_of_inv_partial",
             "replaceRangeWith_valid_of_inv_partial", "replaceRangeWith_valid_inline_partial", "aroundPayload_of_norm",
-            "insertInline_valid_of_norm", "replace_valid_of_inv_of_norm"],
+            "insertInline_valid_of_norm", "replace_valid_of_inv_of_norm",
+            "fit_emits_valid_payload", "payloadInv_step_gen", "fit_emits_valid_payload_cut", "fit_replace_recorded_valid",
+            "delete_recorded_valid", "fit_no_raise_partial", "fit_raise_sites"],
     "C12": ["canJoin_join_applies", "liftTarget_lift_applies_flat", "liftTarget_lift_applies", "insertPoint_insert_applies",
             "dropPoint_drop_applies_closed", "joinPoint_join_applies", "insertPoint_insert_text_applies",
             "insertPoint_insert_marked_top"],
